@@ -16,7 +16,7 @@ from ..devsim import SimDevice
 ID = "C14"
 LEVEL = "exploration"
 SHARDS = {"quick": 8, "thorough": 16}
-RULE = ("response frames built from every valid kind (state, capabilities, properties B1/B0, energy, humidity): truncated to every "
+RULE = ("(overlap: an apply() started 0.05..0.65 s into a multi-query poll of the same client, bad frames mixed into the poll's answers; what only the poll delivers must end up as when both run one after the other) response frames built from every valid kind (state, capabilities, properties B1/B0, energy, humidity): truncated to every "
         "shorter body length (body check and outer checksum recomputed so validation passes; also the empty frame and frames "
         "shorter than the header), every count byte, size byte and capability value byte set to 0..255, the header length byte inconsistent with the real length, valid frames of every kind whose data bytes are all 0x00 / 0xFF / 0x99 (e.g. the all-zero energy response) arriving after real data on the same client, well-formed property responses whose records combine every property id the library knows (decoded or not) or unknown ids with result bytes (success / failure flag) and sizes 0..14, a well-formed header-only or full frame followed by 1..48 trailing bytes (padding or the start of another frame), every response id 0..255 with random "
         "bodies of length 0..60 and frame types 0..7, oversized frames, and fields pointing past the end; delivered alone or in "
@@ -194,7 +194,64 @@ def _run(case: dict, with_bad: bool):
     return res
 
 
+POLL_ONLY = ["indoor_humidity", "total_energy_usage", "current_energy_usage", "real_time_power_usage", "horizontal_swing_angle", "vertical_swing_angle", "rate_select", "self_clean"]
+
+
+def check_overlap(case: dict):
+    """A poll is waiting for its answers (the unit takes 0.3 s per answer, bad frames mixed in) when the user applies on the same object.
+    What only the poll can deliver (humidity, energy, property values) must end up exactly as when poll and apply run one after the other."""
+    import asyncio
+    from msmart.device import AirConditioner as AC
+    pre = [make_frame(s_) for s_ in case.get("pre", [])]
+    snaps = []
+    for sequential in (False, True):
+        net = vloop.Net()
+        res = {}
+
+        async def main(loop, sequential=sequential):
+            m = RK.model(0)
+            dev = SimDevice(loop, version=2, device_id=3, ac=m)
+            net.listen("10.0.0.9", 6444, dev)
+            ac = AC(ip="10.0.0.9", port=6444, device_id=3)
+            await ac.get_capabilities()
+            ac.enable_energy_usage_requests = True
+            await ac.refresh()
+            m1 = RK.model(1)
+            m.props, m.energy, m.indoor_humidity = m1.props, m1.energy, m1.indoor_humidity
+            dev.latency = 0.3
+            m.response_hook = lambda fr, p, outp: (pre + outp) if p.body[0] != 0x40 else outp
+            try:
+                if sequential:
+                    await ac.refresh()
+                    ac.target_temperature = 25.0
+                    await ac.apply()
+                else:
+                    t_poll = asyncio.ensure_future(ac.refresh())
+                    await asyncio.sleep(case.get("gap", 0.1))
+                    ac.target_temperature = 25.0
+                    await ac.apply()
+                    await t_poll
+            except Exception as e:
+                res["exc"] = e
+            res["snap"] = RK.snapshot(ac)
+            ac._lan._disconnect()
+
+        vloop.run(main, net)
+        snaps.append(res)
+    got, ref = snaps
+    if "exc" in ref:
+        return ("overlap/reference-raises", f"{ref['exc']!r}")
+    if "exc" in got:
+        return (f"overlap/raises/{type(got['exc']).__name__}", f"{got['exc']!r} with an apply overlapping a poll")
+    diff = {k: (ref["snap"][k], got["snap"][k]) for k in POLL_ONLY if k in ref["snap"] and ref["snap"][k] != got["snap"][k]}
+    if diff:
+        return ("good-frames-lost/overlap", f"decodable responses of a poll that an apply() overlapped were not applied (sequential, overlapped): {diff}")
+    return None
+
+
 def check_case(case: dict):
+    if case.get("overlap"):
+        return check_overlap(case)
     res = _run(case, True)
     if "exc" in res:
         e = res["exc"]
@@ -353,6 +410,17 @@ def run(ctx) -> None:
                         case["strict"] = True
                     ctx.check(case, lambda c: _run_one(ctx, c))
     ctx.sweep("bad frame catalogue x operations x arrangements", n, not ctx.quick)
+    # an apply overlapping a poll whose exchanges also carry undecodable frames
+    ov = 0
+    for i, spec in enumerate(specs[:: max(1, len(specs) // 24)]):
+        for gap in (0.05, 0.1, 0.35, 0.65):
+            ov += 1
+            if ctx.mine(ov):
+                case = {"overlap": True, "op": "refresh", "pre": [spec] if i % 3 else [], "gap": gap}
+                ctx.case(hash(("overlap", i, gap)), True, cls="overlap")
+                ctx.sample("overlap", case)
+                ctx.check(case, check_case)
+    ctx.sweep("apply overlapping a multi-query poll x bad frames x gap", ov, True)
 
     hexb = lambda s_: s_.map(lambda b: b.hex())
     spec = st.one_of(
